@@ -1,8 +1,121 @@
-//! C07 — stub, to be written.
+//! C07: substitution equals syntactic replacement of a variable by a function.
+//!
+//!   C07.sub <f> <g> <x>  =>  <bdd>|panic        f.substitute(x, g)
 #[path = "../common.rs"]
 mod common;
+use biodivine_lib_bdd::*;
 use common::*;
 
-pub fn run(key: &str, _a: &[String], _out: &mut Out) { panic!("unknown key {}", key) }
-pub fn gen(_tier: Tier, _rng: &mut Rng64, _out: &mut Out) {}
+fn s(x: &str) -> String { x.to_string() }
+
+pub fn run(key: &str, a: &[String], out: &mut Out) {
+    match key {
+        "C07.sub" => {
+            let (f, g) = (Bdd::from_string(&a[0]), Bdd::from_string(&a[1]));
+            let x: usize = a[2].parse().unwrap();
+            let res = catch(|| f.substitute(var(x), &g));
+            out.case(key, a, &[fmt_res_bdd(&res)]);
+        }
+        _ => panic!("unknown key {}", key),
+    }
+}
+
+/// function of the variables in `sub` (strictly increasing), lifted to n variables; `must` are forced
+/// to be essential by xor-ing them in
+fn lifted_tt(rng: &mut Rng64, n: usize, sub: &[usize], must: &[usize]) -> TT {
+    let k = sub.len();
+    let inner = random_tt(rng, k);
+    (0..(1usize << n)).map(|i| {
+        let v = val_of_index(n, i);
+        let mut j = 0usize;
+        for x in sub { j = (j << 1) | (v[*x] as usize); }
+        let mut r = inner[j];
+        for m in must { r ^= v[*m]; }
+        r
+    }).collect()
+}
+fn random_subset(rng: &mut Rng64, n: usize) -> Vec<usize> {
+    (0..n).filter(|_| rng.bool()).collect()
+}
+
+pub fn gen(tier: Tier, rng: &mut Rng64, out: &mut Out) {
+    let thorough = tier == Tier::Thorough;
+    // ---------------- all (f, g, x) over n <= 2 variables; n = 3: all 196 608 (thorough) / ~15 000 sampled (quick)
+    for n in 0..=3usize {
+        let count = 1u64 << (1u64 << n);
+        let funcs: Vec<String> = (0..count).map(|t| fmt_bdd(&bdd_of_tt(n, &tt_from_index(n, t)))).collect();
+        if n < 3 || thorough {
+            for f in &funcs { for g in &funcs { for x in 0..n {
+                run("C07.sub", &[f.clone(), g.clone(), x.to_string()], out);
+            } } }
+            // a variable id that is not a variable of the set: `self` is returned unchanged
+            for f in &funcs { if rng.chance(1, 8) { run("C07.sub", &[f.clone(), rng.pick(&funcs).clone(), n.to_string()], out); } }
+        } else {
+            for _ in 0..15000 {
+                let f = rng.pick(&funcs).clone();
+                let g = rng.pick(&funcs).clone();
+                run("C07.sub", &[f, g, rng.below(3).to_string()], out);
+            }
+        }
+    }
+    // ---------------- 4-5 variables (6 in thorough): g depends on x and on variables above / below x
+    // that f does not mention; uniformly random pairs; non-canonical operands
+    let rounds = if thorough { 120000 } else { 6000 };
+    for _ in 0..rounds {
+        let n = 4 + rng.below(if thorough { 3 } else { 2 }) as usize;
+        let x = rng.below(n as u64) as usize;
+        let (mut f, mut g);
+        match rng.below(4) {
+            0 => { f = random_bdd(rng, n); g = random_bdd(rng, n); }
+            _ => {
+                // f mentions x and a random subset S; g mentions x (mostly) and a subset T with T \ S non-empty
+                let mut sf = random_subset(rng, n);
+                if !sf.contains(&x) { sf.push(x); sf.sort(); }
+                let mut sg = random_subset(rng, n);
+                let clash = rng.chance(3, 4);
+                if clash && !sg.contains(&x) { sg.push(x); }
+                if !clash { sg.retain(|y| *y != x); }
+                let outside: Vec<usize> = (0..n).filter(|y| !sf.contains(y)).collect();
+                let mut must_g: Vec<usize> = if clash { vec![x] } else { vec![] };
+                if !outside.is_empty() {
+                    let y = *rng.pick(&outside);
+                    if !sg.contains(&y) { sg.push(y); }
+                    must_g.push(y);
+                    // an adjacent outsider if there is one (the region the fixed defect lived in)
+                    for z in [x + 1, x.wrapping_sub(1)] {
+                        if z < n && outside.contains(&z) && rng.bool() { if !sg.contains(&z) { sg.push(z); } must_g.push(z); }
+                    }
+                }
+                sg.sort(); must_g.sort(); must_g.dedup();
+                f = bdd_of_tt(n, &lifted_tt(rng, n, &sf, &[x]));
+                g = bdd_of_tt(n, &lifted_tt(rng, n, &sg, &must_g));
+            }
+        }
+        if rng.chance(1, 8) { f = noncanon_variant(rng, &f); }
+        if rng.chance(1, 8) { g = noncanon_variant(rng, &g); }
+        run("C07.sub", &[fmt_bdd(&f), fmt_bdd(&g), x.to_string()], out);
+    }
+    // ---------------- structured families over 4 variables: g in {x, !x, x ^ y, x & y, x | y, y} for every y, every f of
+    // a sampled set, every x
+    let n = 4usize;
+    let samples = if thorough { 600 } else { 40 };
+    for _ in 0..samples {
+        let f = fmt_bdd(&random_bdd(rng, n));
+        for x in 0..n {
+            let lit = |k: usize| -> TT { (0..(1usize << n)).map(|i| val_of_index(n, i)[k]).collect() };
+            let tx = lit(x);
+            let mut gs: Vec<TT> = vec![tx.clone(), tx.iter().map(|b| !b).collect()];
+            for y in 0..n { if y != x {
+                let ty = lit(y);
+                gs.push(tx.iter().zip(&ty).map(|(a, b)| a ^ b).collect());
+                gs.push(tx.iter().zip(&ty).map(|(a, b)| *a && *b).collect());
+                gs.push(tx.iter().zip(&ty).map(|(a, b)| *a || *b).collect());
+                gs.push(ty);
+            } }
+            for g in gs { run("C07.sub", &[f.clone(), fmt_bdd(&bdd_of_tt(n, &g)), x.to_string()], out); }
+        }
+    }
+    let _ = s;
+}
+
 fn main() { harness_main(gen, run) }
